@@ -12,7 +12,7 @@ i=0
 while [ $i -lt $L ]; do
   d=$BASE/$i; mkdir -p $d/verif
   git -C /repo worktree add -q --detach $d/repo HEAD || exit 2
-  rsync -a --exclude target --exclude replays --exclude evidence --exclude seeded --exclude .git /verif/sim /verif/py /verif/check /verif/known_findings.json /verif/properties.jsonl $d/verif/
+  rsync -a --exclude target --exclude replays --exclude evidence --exclude seeded --exclude .git /verif/sim /verif/py /verif/findings /verif/check /verif/known_findings.json /verif/properties.jsonl $d/verif/
   sed -i "s|path = \"/repo\"|path = \"$d/repo\"|" $d/verif/sim/Cargo.toml
   # share nothing but the registry; warm the lane's target dir from the main one
   cp -r /verif/sim/target $d/verif/sim/target 2>/dev/null
